@@ -3,3 +3,4 @@ pub mod fmt;
 pub mod eval;
 pub mod trace;
 pub mod value;
+pub mod sierra_check;
